@@ -9,7 +9,7 @@ package indexed
 //@ ghost func decodeResult(b []byte) error
 //@
 //@ extern func github.com/NethermindEth/juno/encoder.Unmarshal
-//@   modifies *
+//@   modifies pointee(v)
 //@   ensures result == decodeResult(b)
 
 // Well-formed index vector: offsets into data, non-decreasing.
@@ -20,7 +20,8 @@ package indexed
 //@   arith int
 //@   requires wf: wfIndex(l.indexes, l.data)
 //@   requires inrange: 0 <= index && index < len(l.indexes)
-//@   modifies *
+//@   requires value != nil
+//@   modifies *value
 //@   ensures inner: index < len(l.indexes)-1 ==> result == decodeResult(l.data[old(l.indexes[index]) : old(l.indexes[index+1])])
 //@   ensures last: index == len(l.indexes)-1 ==> result == decodeResult(l.data[old(l.indexes[index]) : len(l.data)])
 //@
@@ -28,5 +29,12 @@ package indexed
 //@   props C07
 //@   arith int
 //@   requires wf: wfIndex(l.indexes, l.data)
-//@   modifies *
 //@   ensures notfound: (index < 0 || index >= len(l.indexes)) ==> result1 == db.ErrKeyNotFound
+
+//@ func (LazySlice).All
+//@   props C07
+//@   arith int
+//@   requires wf: wfIndex(l.indexes, l.data)
+//@   loop 1: invariant bounds: -1 <= rangeindex && rangeindex < len(l.indexes)
+//@   loop 1: invariant keepwf: wfIndex(l.indexes, l.data) && len(items) == len(l.indexes)
+//@   ensures count: result1 == nil ==> len(result0) == len(l.indexes)
